@@ -162,6 +162,10 @@ func (r *BinaryCopyReader) Read(ctx context.Context) (_ []any, err error) {
 		return nil, err
 	}
 
+	if int(fields) != len(r.scanners) {
+		return nil, fmt.Errorf("unexpected number of fields: %d, expected %d", fields, len(r.scanners))
+	}
+
 	row := make([]any, fields)
 	for index := range fields {
 		length, err := r.reader.GetUint32()
